@@ -228,6 +228,10 @@ def s_save_bounded(ctx):
         t = None if kind == 0 else SObj(ir.ExternalTensor if kind == 2 else ir.Tensor, f"tensor{j}")
         if t is not None:
             t.fields.update(name=f"t{j}", dtype=Opaque("dtype"), shape=Opaque("shape"))
+            if kind == 2:
+                # an already-external tensor points at a data file of an EARLIER save: possibly of the same file name, in another directory
+                loc = ["m.onnx.data", "other.data"][ctx.choose(2, f"init{j} external location")]
+                t.fields.update(location=loc, base_dir="/some/other/dir", offset=0, length=8, path=f"/some/other/dir/{loc}")
         v.fields.update(name=f"w{j}", const_value=t)
         vals.append(v)
     # an initializer may ALSO be a graph input (a default the caller may override): still an initializer that must carry data
@@ -243,6 +247,11 @@ def s_save_bounded(ctx):
     graph.fields["inputs"] = [x_in] + [v for v, gi in zip(vals, also_input) if gi]
     model = SObj(ir.Model, "model", lazy=_forbid("model"))
     model.fields["graph"] = graph
+
+    def graphs():
+        raise AssertionError
+    I.models[graphs] = lambda interp: [graph]      # ir.Model.graphs(): the main graph and its subgraphs (none here)
+    model.fields["graphs"] = graphs
     snapshot = [(v, dict(v.fields)) for v in vals] + [(graph, dict(graph.fields)), (model, dict(model.fields))]
     snap_t = [(v.fields["const_value"], dict(v.fields["const_value"].fields)) for v in vals if v.fields["const_value"] is not None]
     I.models[importlib.util.find_spec] = lambda interp, name: None
@@ -258,6 +267,19 @@ def s_save_bounded(ctx):
     def m_convert(interp, tensors):
         return [SObj(ir.Tensor, "loaded") for _ in interp.iterate(tensors)]
     I.models[ir.external_data.convert_tensors_from_external] = m_convert
+
+    unloads = []
+
+    def m_unload(interp, m, base_dir=None, relative_path=None, *a, **kw):
+        unloads.append((base_dir, relative_path))
+        # onnx_ir.external_data.unload_from_model: writes the data file and REPLACES every initializer tensor of the model by an external one
+        for v in vals:
+            if v.fields["const_value"] is not None:
+                nt = SObj(ir.ExternalTensor, "unloaded")
+                nt.fields.update(name=v.fields["const_value"].fields.get("name"), location=relative_path, base_dir=base_dir, offset=0, length=8)
+                v.fields["const_value"] = nt
+        return m
+    I.models[ir.external_data.unload_from_model] = m_unload
     clo = I.closure_of(torch_2_5.save_model_with_external_data)
     raised = None
     try:
@@ -276,7 +298,11 @@ def s_save_bounded(ctx):
     if not any(v.fields["const_value"] is None for v in vals):
         # whatever the tensors are backed by (memory, or a data file of an earlier save somewhere else): one save of the given
         # model with the sibling data file - the loaded copy must find its data next to the model file
-        ok = len(saves) == 1 and saves[0][0] is model and saves[0][1] == "dir/m.onnx" and saves[0][2].get("external_data") == "m.onnx.data"
+        # effect-based: the model file is written once, and the tensor data goes to the SIBLING file — through ir.save(external_data=...) or
+        # through onnx_ir.external_data.unload_from_model(model, <directory of the model file>, "<name>.data") before the save
+        via_save = saves[0][2].get("external_data") == "m.onnx.data" if saves else False
+        via_unload = [u for u in unloads if u[1] == "m.onnx.data" and str(u[0]) in ("dir", "dir/")]
+        ok = len(saves) == 1 and saves[0][0] is model and saves[0][1] == "dir/m.onnx" and (via_save or (len(unloads) == 1 and len(via_unload) == 1))
         ctx.check("C20.save.bounded.every_initialized_model_is_saved_once_with_the_sibling_data_file", ok, CL3)
 
 
